@@ -152,13 +152,28 @@ def acksOk (evs : List Ev) (o : ObsOut) : Bool :=
        o.got.all fun g => g.1 != e.id || g.2 == n.toNat
      | _ => false)
 
+/-- `readv` result that hands out no data: EOF, EAGAIN/EINTR or an errno -/
+def Rd.nonpos : Rd → Bool
+  | .ok (_+1) => false
+  | _ => true
+
+/-- the first `k` results end with one that found nothing more to read -/
+def drainedAt (rds : List Rd) (k : Nat) : Bool :=
+  match k with
+  | 0 => false
+  | j+1 => match rds[j]? with
+    | some r => r.nonpos
+    | none => false
+
 /-- (f) hang-up only after the data: when readable and hang-up are reported together to a
-connection operator and it is hung up in this batch, everything readable was acknowledged first -/
+connection operator and it is hung up in this batch, the acknowledged counts are the results of the
+reads up to one that found nothing more to read -/
 def drainedBeforeHup (evs : List Ev) (tr : List ObsItem) : Bool :=
   evs.all fun e =>
     !(e.trig.rd && e.trig.hup && e.op.inputs && !e.op.onRead && !e.op.wake && e.sc.ins.isEmpty &&
       tr.any fun j => j.id == e.id && (j.ob == .detach || j.ob == .onHup)) ||
-    posAcks tr e.id == readable e.sc.rds
+    (List.range (e.sc.rds.length + 1)).any fun k =>
+      drainedAt e.sc.rds k && posAcks tr e.id == posReads (e.sc.rds.take k)
 
 /-- the event at which `handler` must return true: the wake-up operator, token available, first
 byte of the (possibly stale) buffer non-zero; `none` if there is none -/
